@@ -1,6 +1,7 @@
 import PdfModel.Core.Proto
 import PdfModel.Model.Content
 import PdfModel.Model.ContentF32
+import PdfModel.Model.ContentInline
 import PdfModel.Spec.OperatorTable
 import PdfModel.Spec.ContentEquiv
 
@@ -17,6 +18,7 @@ import PdfModel.Spec.ContentEquiv
   c08.spec <cur x.y|-> <hexkw> <operands joined by ;>
                                          → `none` | `unsupported` | `construct` | `illformed` | `ok <ops>`
   c08.specrun <tokens>                   → `ok <ops>` | `none`   (Spec.specRun on the statements)
+  c08.inline <hex of the bytes after ID>   → `ok <hex data> <hex of what follows EI>` | `none`
   c08.real beq|neg|ofint|toint|big|special … → the `f32` instance of `RealOps`
 -/
 
@@ -442,6 +444,13 @@ def handle (args : List String) : String :=
       | some ss => match ContentSpec.specRun ro ⟨none, none⟩ ss with
         | some ops => "ok " ++ showOps ops
         | none => "none"
+    | none => "bad-request"
+  | ["c08.inline", rest] =>
+    match bytesOfHex rest with
+    | some bs =>
+      match ContentInline.inlineData bs with
+      | some (d, t) => s!"ok {hexOfBytes d} {hexOfBytes t}"
+      | none => "none"
     | none => "bad-request"
   | ["c08.real", "beq", a, b] =>
     match parseHex8 a, parseHex8 b with
